@@ -49,7 +49,8 @@ def status_of(fn):
 def pct_free(info, run):
     """no `%%` in any template part and no `%` in any value that is substituted"""
     b = info['bench'][run.benchmark.name]
-    parts = [dc.spec_path('/', info['path']) or '', info['executable'], info['args'] or '', info['command'],
+    ex = dc.ex_of(info, run)
+    parts = [dc.spec_path('/', ex['path']) or '', ex['executable'], ex['args'] or '', info['command'],
              b['extra_args'] or '']
     if any('%%' in p for p in parts):
         return False
@@ -59,7 +60,8 @@ def pct_free(info, run):
 
 def uses_default_warmup(info, run):
     b = info['bench'][run.benchmark.name]
-    t = ' '.join([info['path'] or '', info['executable'], info['args'] or '', info['command'], b['extra_args'] or ''])
+    ex = dc.ex_of(info, run)
+    t = ' '.join([ex['path'] or '', ex['executable'], ex['args'] or '', info['command'], b['extra_args'] or ''])
     return info['warmup'] is None and '%(warmup)s' in t.replace('%%', '')
 
 
@@ -307,9 +309,26 @@ def check_sessions(ck, scenarios):
         time_calls = []
         with dc.chdir(wd), dc.environ(home=sc['home']), dc.time_world(adapter, time_calls):
             runs = dc.compile_runs(cfg, wd)
+            # a run is identified by the marker of its benchmark and, with several executors, the
+            # marker in the executor's args
+            ex_names = list((info.get('executors') or {info['executor']: None}).keys())
+            multi = len(ex_names) > 1
+
+            def key_of(text):
+                m = marker_of(text, n)
+                if m is None or not multi:
+                    return m
+                for k in range(len(ex_names)):
+                    if ('x%dx' % k) in text:
+                        return '%s|x%dx' % (m, k)
+                return None
             by_marker = {}
             for run in runs:
-                by_marker['m%dm' % names.index(run.benchmark.name)] = run
+                k = 'm%dm' % names.index(run.benchmark.name)
+                if multi:
+                    k += '|x%dx' % ex_names.index(run.benchmark.suite.executor.name)
+                by_marker[k] = run
+            keys = sorted(by_marker)
             w = dc.world(wd, dict(os.environ))
             completed = dict((m, 0) for m in by_marker)
             model_sessions, observed = [], []
@@ -325,7 +344,7 @@ def check_sessions(ck, scenarios):
                 def script(rec, sess=sess, used=used, pos=pos, starts_of=starts_of, unknown=unknown,
                            reports_of=reports_of, last=last):
                     text = rec['args'] if isinstance(rec['args'], str) else ' '.join(rec['args'])
-                    m = marker_of(text, n)
+                    m = key_of(text)
                     if m is None and adapter['kind'] == 'perf' and last.get('m') and 'profile.perf' in text:
                         # the report step of the invocation that was just recorded
                         reports_of[last['m']].append(rec)
@@ -333,7 +352,8 @@ def check_sessions(ck, scenarios):
                     if m is None or m not in used:
                         unknown.append(rec['args'])
                         return drive.Outcome(1, '')
-                    o = sess['script'][m][pos[m] % len(sess['script'][m])]
+                    outs_m = sess['script'][m.split('|')[0]]
+                    o = outs_m[pos[m] % len(outs_m)]
                     pos[m] += 1
                     used[m].append(o)
                     starts_of[m].append(rec)
@@ -375,7 +395,7 @@ def check_sessions(ck, scenarios):
                     printed = {}
                     stray = []
                     for e in entries:
-                        m = marker_of(e['cmd'], n)
+                        m = key_of(e['cmd'])
                         if m is None or m in printed:
                             stray.append(e)
                         else:
@@ -400,7 +420,7 @@ def check_sessions(ck, scenarios):
                         ck.oracle_fail('plan_no_write', inp,
                                        {'before': None if before is None else len(before),
                                         'after': None if after is None else len(after)})
-                    model_sessions.append({'plan': True, 'outcomes': [[] for _ in names]})
+                    model_sessions.append({'plan': True, 'outcomes': [[] for _ in keys]})
                     observed.append({'plan': sorted(([e['cd'], e['cmd']] for e in entries), key=json.dumps)})
                 else:
                     obs_starts = {}
@@ -447,7 +467,7 @@ def check_sessions(ck, scenarios):
                                 {'text': rec['args'], 'cwd': rec['cwd'],
                                  'env': sorted(rec['env'].items()) if rec['env'] is not None else None})
                     model_sessions.append({'plan': False,
-                                           'outcomes': [used['m%dm' % j] for j in range(n)]})
+                                           'outcomes': [used[k] for k in keys]})
                     observed.append({'starts': obs_starts})
                 ck.case(nontrivial_key=('s', idx, s_i) if (sess['plan'] or any(used.values())) else None,
                         sample={'plan': sess['plan'], 'starts': len(res.starts), 'status': res.status()}
@@ -463,7 +483,7 @@ def check_sessions(ck, scenarios):
             df = drive.read_data_file(data_file if adapter['kind'] != 'perf' else data_file + '.none')
             marker_of_id = {}
             for rid, meta in df['run_meta']:
-                marker_of_id[rid] = marker_of((meta.get('cmdline', '') or '') + ' ' + str(meta.get('extraArgs', '') or ''), n)
+                marker_of_id[rid] = key_of((meta.get('cmdline', '') or '') + ' ' + str(meta.get('extraArgs', '') or ''))
             recorded = dict((m, []) for m in by_marker)
             for row in df['rows']:
                 m = marker_of_id.get(int(row[-1]))
@@ -478,13 +498,13 @@ def check_sessions(ck, scenarios):
                     ck.oracle_fail('invocation_number', inp, {'run': m, 'recorded': recorded[m], 'expected': want},
                                    {'where': 'data file'})
             # ---- model (queued: one driver start for all scenarios)
-            ordered = [by_marker['m%dm' % j] for j in range(n) if ('m%dm' % j) in by_marker]
+            ordered = [by_marker[k] for k in keys]
             m_adapter = model_adapter(ck, adapter)
             op = {'op': 'c03.sessions', 'world': w,
                   'runs': [dict(dc.model_run(info, r), adapter=m_adapter) for r in ordered],
                   'sessions': model_sessions[:len(observed)]}
 
-            def compare(ans, sc=sc, observed=observed, by_marker=by_marker, n=n, recorded=recorded):
+            def compare(ans, sc=sc, observed=observed, by_marker=by_marker, n=n, recorded=recorded, keys=keys):
                 if 'err' in ans:
                     raise lib.InfraError('model rejected c03.sessions')
                 m_recorded = dict((m, []) for m in by_marker)
@@ -497,8 +517,7 @@ def check_sessions(ck, scenarios):
                             ck.disagree('c03.sessions: plan printed by -p vs RB.Cmdline.session', inp,
                                         obs['plan'], m_plan, THEOREMS_PLAN)
                     else:
-                        for j in range(n):
-                            m = 'm%dm' % j
+                        for j, m in enumerate(keys):
                             ms = [{'text': e['text'], 'cwd': e['cwd'], 'env': sorted((k, v) for k, v in e['env'])}
                                   for e in events if e['t'] == 'start' and e['run'] == j]
                             os_ = [{'text': s['text'], 'cwd': s['cwd'],
@@ -527,7 +546,7 @@ def check_sessions(ck, scenarios):
 
 # ----------------------------------------------------------- real launches
 def gen_real_scenario(rng):
-    cfg, info = dc.gen_config(rng, for_sessions=True, braces=True, parens=False)
+    cfg, info = dc.gen_config(rng, for_sessions=True, braces=True, parens=False, multi_exec=False)
     extra = {}
     for _ in range(rng.randint(8, 25)):
         extra['RBV_%s' % dc.gen_plain(rng, 3, 8, braces=False).translate({ord(c): '_' for c in '-./=:,@+éλ'})] = \
@@ -554,6 +573,7 @@ def check_real(ck, scenarios):
         su = cfg['benchmark_suites'][info['suite']]
         ex['path'], ex['executable'] = wd, 'h.sh'
         info['path'], info['executable'] = wd, 'h.sh'
+        info['executors'] = {info['executor']: {'path': wd, 'executable': 'h.sh', 'args': info['args']}}
         su.pop('location', None)
         info['has_location'], info['location'] = False, None
         if sc['loc'] != 'absent':
@@ -641,6 +661,94 @@ def check_real(ck, scenarios):
     flush(ck, batch)
 
 
+
+# ------------------------------------------- env of one run while another run expands its own
+def gen_env_isolation_case(rng):
+    env = {}
+    pool = [('LIBS', '~/lib:/opt/lib:~/more'), ('P', '~'), ('JAVA_HOME', '~/jdk'), ('A', '1'), ('Q', 'x ~/y'),
+            ('PATH', '~root/bin:/bin'), ('E', ''), ('K', 'k:~')]
+    for k, v in rng.sample(pool, rng.randint(2, 5)):
+        env[k] = v
+    if not any('~' in v for v in env.values()):
+        env['LIBS'] = '~/lib:/opt/lib:~/more'
+    level = rng.choice(['runs', 'suite', 'executor', 'benchmark'])
+    bench = {'B': {'env': env}} if level == 'benchmark' else 'B'
+    suite = {'gauge_adapter': 'RebenchLog', 'command': 'h %(benchmark)s %(input)s', 'benchmarks': [bench],
+             'input_sizes': rng.choice([[1, 2], [1, 2, 3], ['s', 'm', 'l', 'xl']])}
+    executor = {'path': '.', 'executable': 'exe'}
+    runs_cfg = {'invocations': 1, 'execute_exclusively': False}
+    {'runs': runs_cfg, 'suite': suite, 'executor': executor}.get(level, {})['env'] = env
+    cfg = {'default_experiment': 'T', 'default_data_file': 't.data', 'runs': runs_cfg,
+           'benchmark_suites': {'S': suite}, 'executors': {'E': executor},
+           'experiments': {'T': {'suites': ['S'], 'executions': ['E']}}}
+    info = {'bench': {'B': {'command': 'B', 'extra_args': None, 'env': dict(env)}}, 'executor': 'E', 'suite': 'S',
+            'iterations': None, 'warmup': None, 'env': dict(env), 'invocations': 1, 'path': '.', 'executable': 'exe',
+            'args': None, 'command': 'h %(benchmark)s %(input)s', 'has_location': False, 'location': None,
+            'dims': {'input_sizes': suite['input_sizes']}, 'kinds': ['env-isolation']}
+    return {'kind': 'env_isolation', 'cfg': cfg, 'info': info, 'home': rng.choice(['/home/u', '/root', '/h/']),
+            'order': rng.choice([[0, 1], [1, 0], [0, -1]])}
+
+
+def check_env_isolation(ck, cases):
+    """Several runs of one benchmark share its configuration.  One run's env is read while
+    another run of the same benchmark is in the middle of expanding `~` in its own (the window a
+    worker thread of the parallel scheduler can fall into, made deterministic by holding the first
+    `expand_user` call of the first reader): every run must see the completely expanded map."""
+    import threading
+    from rebench.model import run_id as run_id_mod
+    base = os.path.join(ck.scratch, 'bulk')
+    os.makedirs(base, exist_ok=True)
+    if not hasattr(run_id_mod, 'expand_user'):
+        ck.notes.append('env isolation: rebench.model.run_id.expand_user not found, race not driven')
+        return
+    for case in cases:
+        cfg, info = case['cfg'], case['info']
+        with dc.chdir(base), dc.environ(home=case['home']):
+            runs = dc.compile_runs(cfg, base)
+            runs.sort(key=lambda r: str(r.input_size))
+            first, second = runs[case['order'][0]], runs[case['order'][1]]
+            inside, go = threading.Event(), threading.Event()
+            state = {'n': 0}
+            orig = run_id_mod.expand_user
+            lock = threading.Lock()
+
+            def held(value, shell_escape, orig=orig):
+                with lock:
+                    state['n'] += 1
+                    is_first = state['n'] == 1
+                if is_first:
+                    inside.set()
+                    go.wait(5)
+                return orig(value, shell_escape)
+            got = {}
+
+            def reader():
+                got['first'] = status_of(lambda: dict(first.env))
+            run_id_mod.expand_user = held
+            try:
+                t = threading.Thread(target=reader)
+                t.start()
+                entered = inside.wait(3)
+                # … while `first` is still expanding, another run of the same benchmark is started
+                got['second'] = status_of(lambda: dict(second.env))
+                go.set()
+                t.join(10)
+            finally:
+                go.set()
+                run_id_mod.expand_user = orig
+            got['later'] = status_of(lambda: dict(runs[-1].env))
+            ck.count('env-isolation:%s' % ('window-reached' if entered else 'no-expansion-call'))
+            home, users = home_of(), users_dict()
+            for which, run in (('first', first), ('second', second), ('later', runs[-1])):
+                spec = dc.spec_launch(info, run, 1, base, home, users)
+                inp = dict(case, which=which)
+                if got.get(which) != spec['env']:
+                    ck.oracle_fail('env_exact', inp, {'expected': spec['env'], 'observed': got.get(which),
+                                                      'reader': which},
+                                   {'where': 'RunId.env read while another run of the benchmark expands its env'})
+            ck.case(nontrivial_key=('enviso', json.dumps(case, sort_keys=True)) if entered else None)
+
+
 # ------------------------------------------------------------------ driver
 def load_corpus():
     d = os.path.join(lib.VERIF, 'harness', 'corpus', 'C03')
@@ -658,6 +766,9 @@ def dispatch(ck, inputs):
         for i in range(0, len(bulk), 150):
             check_bulk(ck, bulk[i:i + 150])
     check_sessions(ck, [i for i in inputs if i['kind'] == 'sessions'])
+    iso = [i for i in inputs if i['kind'] == 'env_isolation']
+    if iso:
+        check_env_isolation(ck, iso)
     check_real(ck, [i for i in inputs if i['kind'] == 'real'])
 
 
@@ -683,6 +794,7 @@ def run(ck):
     dispatch(ck, [gen_bulk_case(ck.rng) for _ in range(n_bulk)])
     dispatch(ck, [gen_session_scenario(ck.rng) for _ in range(n_sess)])
     dispatch(ck, [gen_real_scenario(ck.rng) for _ in range(n_real)])
+    dispatch(ck, [gen_env_isolation_case(ck.rng) for _ in range(40 if quick else 600)])
 
 
 def replay(ck, data):
